@@ -500,7 +500,8 @@ def sim(cls: type) -> Sim:
             # Add to the sim-attributes list
             # Special case Python's conventional "ignored" name, the underscore.
             # Leave attributes named "_"'s `name` field set to `None`.
-            if key != "_":
+            # (`Literal`s are immutable, and have no name.)
+            if key != "_" and not isinstance(val, Literal):
                 val.name = key
             attrs.append(val)
         else:  # Add to the forget-list
